@@ -474,16 +474,17 @@ def _crash_points_sample(tc):
 
 def _pair_pool(tc, singles):
     fr = protocol_frames(tc)
-    out = [f for f in singles if f[0] in ("wdie", "adie")]
-    for name in ("SUBSCRIBE", "DATA", "CONNECT_V2", "DISCONNECT", "CLIENT_SET_NAME"):
+    out = [f for f in singles if f[0] == "wdie"]
+    out += [f for f in singles if f[0] == "adie" and f[3] in (1, 3) and f[2] == "rst" and f[4] in ("publish", "timers")]
+    for name in ("SUBSCRIBE", "DATA", "CONNECT_V2"):
         L = len(fr[name])
-        for off in sorted({0, 1, 47, 48, 49, L - 1, L}):
-            if 0 <= off <= L:
-                for end in ("fin", "rst"):
-                    for pos in (("subscribed", "suball", "logger") if name != "CONNECT_V2" else ("accepted",)):
-                        out.append(["raw", pos, fr[name][:off].hex(), end])
+        for off in sorted({0, 47, 48, L}):
+            for end in ("fin", "rst"):
+                for pos in (("subscribed", "logger") if name != "CONNECT_V2" else ("accepted",)):
+                    out.append(["raw", pos, fr[name][:off].hex(), end])
     out.append(["raw", "connected", P.mkframe(10000, b"", timecode=tc, src_mod_id=41).hex(), "none"])
     out.append(["raw", "connected", P.mkheader(tc, msg_type=T1, src_mod_id=41, num_data_bytes=-1).hex(), "fin"])
+    out.append(["raw", "accepted", _frame(tc, P.MT_CONNECT_V2, P.P_CONNECT_V2.pack(0, 0, 0, 44, 1, b"\xff" * 32)).hex(), "none"])
     return out
 
 
